@@ -1,17 +1,18 @@
 //go:build verif
 
 // c20: nothing a backend says can crash Olla or poison its state.
-//   parse    — every shipped profile's ParseModelsResponse on structurally mutated listings
-//   discover — the real HTTP discovery client + ModelDiscoveryService + unified registry against a
-//              loopback backend whose listing is scripted per round (good / garbage / truncated / empty /
-//              nameless / duplicate / oversized / error status); registry read back after every round
-//   metrics  — metrics.Extractor.ExtractFromChunk on mutated response tails; util.SafeInt32/SafeFloat32 table
-//   xlate    — the Anthropic response / stream translators on mutated OpenAI bytes
+//
+//	parse    — every shipped profile's ParseModelsResponse on structurally mutated listings
+//	discover — the real HTTP discovery client + ModelDiscoveryService + unified registry against a
+//	           loopback backend whose listing is scripted per round (good / garbage / truncated / empty /
+//	           nameless / duplicate / oversized / error status); registry read back after every round
+//	metrics  — metrics.Extractor.ExtractFromChunk on mutated response tails; util.SafeInt32/SafeFloat32 table
+//	xlate    — the Anthropic response / stream translators on mutated OpenAI bytes
+//
 // Every call runs under recover with a 3 s watchdog; a panic or a hang is recorded, never fatal.
 package main
 
 import (
-	"sync"
 	"bytes"
 	"context"
 	"encoding/hex"
@@ -22,6 +23,8 @@ import (
 	"net/http/httptest"
 	"sort"
 	"strings"
+	"sync"
+	"sync/atomic"
 	"time"
 
 	"github.com/thushan/olla/internal/adapter/discovery"
@@ -183,11 +186,11 @@ type round struct {
 }
 
 type roundObs struct {
-	Err   bool     `json:"err"`
-	Names []string `json:"names"` // registry listing for the endpoint after the round (sorted)
-	Guard guard    `json:"guard"`
-	Stats int      `json:"stats_models"` // registry stats: total models
-	Routable []string `json:"routable"`  // names (from the alphabet and the listings so far) whose model->endpoints lookup contains this endpoint
+	Err      bool     `json:"err"`
+	Names    []string `json:"names"` // registry listing for the endpoint after the round (sorted)
+	Guard    guard    `json:"guard"`
+	Stats    int      `json:"stats_models"` // registry stats: total models
+	Routable []string `json:"routable"`     // names (from the alphabet and the listings so far) whose model->endpoints lookup contains this endpoint
 }
 
 func discoverCase(c *vlib.Cases, pf *profile.Factory, epType string, rounds []round) {
@@ -412,6 +415,70 @@ func relayCase(c *vlib.Cases, engine, route string, stream bool, status int, bod
 		"impl": map[string]any{"err": r1.Err, "client_status": r1.Status, "ms": r1.Ms, "got": len(r1.Body), "probe_status": r2.Status, "probe_err": r2.Err}})
 }
 
+// recoverWithBadListing: production stack with model discovery on; the backend lists two models, fails a health check,
+// passes the next one, and answers the model listing that the recovery hook fetches with something unusable. A
+// listing that cannot be used leaves the endpoint's previous catalogue in place.
+func recoverWithBadListing(how string) map[string]any {
+	b := stack.NewBackend("R")
+	defer b.Close()
+	var bad atomic.Bool
+	good := `{"object":"list","data":[{"id":"zz-m1","object":"model"},{"id":"zz-m2","object":"model"}]}`
+	b.Listing = func(path string) (int, string) {
+		if !strings.HasSuffix(path, "/models") {
+			return 0, ""
+		}
+		if !bad.Load() {
+			return 200, good
+		}
+		switch how {
+		case "html-500":
+			return 500, "<html><body>Internal Server Error</body></html>"
+		case "truncated-json":
+			return 200, good[:len(good)/2]
+		case "html-200": // a captive portal / reverse proxy error page served with 200
+			return 200, "<html><body>It works!</body></html>"
+		}
+		return 200, "\x00\x01 not json at all }{"
+	}
+	s, err := stack.Start(stack.Opts{Engine: "sherpa", Balancer: "priority", ModelDiscovery: true, EPs: []stack.EP{{Name: "R", Type: "openai", Priority: 100, Backend: b}}})
+	if err != nil {
+		return map[string]any{"start_err": err.Error()}
+	}
+	defer s.Stop()
+	reg, err := s.Disc.GetRegistry()
+	if err != nil {
+		return map[string]any{"start_err": err.Error()}
+	}
+	names := func() []string {
+		ms, _ := reg.GetModelsForEndpoint(context.Background(), b.URL())
+		out := []string{}
+		for _, m := range ms {
+			out = append(out, m.Name)
+		}
+		sort.Strings(out)
+		return out
+	}
+	deadline := time.Now().Add(4 * time.Second)
+	for len(names()) != 2 && time.Now().Before(deadline) {
+		time.Sleep(10 * time.Millisecond)
+	}
+	before := names()
+	hc, err := s.Disc.GetHealthChecker()
+	if err != nil {
+		return map[string]any{"start_err": err.Error()}
+	}
+	atomic.StoreInt32(&b.HealthStatus, 503)
+	_ = hc.RunHealthCheck(context.Background(), true)
+	down := s.Statuses()["R"]
+	bad.Store(true)
+	atomic.StoreInt32(&b.HealthStatus, 0)
+	_ = hc.RunHealthCheck(context.Background(), true)
+	time.Sleep(400 * time.Millisecond) // the recovery hook runs in its own goroutine
+	after := names()
+	lookup, _ := reg.GetEndpointsForModel(context.Background(), "zz-m1")
+	return map[string]any{"before": before, "after": after, "status_when_down": down, "status_after": s.Statuses()["R"], "lookup_m1": len(lookup)}
+}
+
 func main() {
 	tier := vlib.Tier()
 	r := vlib.NewRng(vlib.Seed())
@@ -611,6 +678,11 @@ func main() {
 		<-done
 	}
 	c.Count("relay")
+	// the production wiring: an endpoint fails a health check, recovers, and the listing fetched on recovery is bad
+	for _, how := range []string{"garbage", "html-500", "truncated-json", "html-200"} {
+		c.Emit(map[string]any{"kind": "recover", "how": how, "impl": recoverWithBadListing(how)})
+		c.Count("recover")
+	}
 	c.Close(map[string]any{"exhaustive": false, "exhaustive_note": "sampling only: structural mutations of each provider's response shapes"})
 	_ = domain.StatusHealthy
 	_ = http.StatusOK
